@@ -58,6 +58,7 @@ func rtmpFacts(p *pkgInfo, out *bytes.Buffer) error {
 	sec := &sections{w: out}
 	sec.run("WriteMessage follows its own Set Chunk Size (C01)", func(w *bytes.Buffer) error { return rtmpFactsWriter(p, w) })
 	sec.run("transaction bookkeeping order and locking (C04)", func(w *bytes.Buffer) error { return rtmpFactsTxn(p, w) })
+	sec.run("Expect* hand a failed read straight back (C08)", func(w *bytes.Buffer) error { return rtmpFactsExpect(p, w) })
 	return sec.err()
 }
 
@@ -703,5 +704,63 @@ func rtmpPacketFacts(p *pkgInfo, w *bytes.Buffer) error {
 		return false
 	})
 	fmt.Fprintf(w, "/-- The condition under which `onPacketWriten` stores `transactions[tid] = name`. -/\ndef onPacketWritenCondition : String := %s\n", leanStr(cond))
+	return nil
+}
+
+// rtmpFactsExpect: in ExpectPacket and ExpectMessage the branch taken when ReadMessage fails returns at once (the
+// error, wrapped): no retry, no look at what kind of error it is. The branch is the `if` whose init is the call of
+// ReadMessage (or that follows the assignment from it) and whose condition is `err != nil`.
+func rtmpFactsExpect(p *pkgInfo, w *bytes.Buffer) error {
+	var names, unread []string
+	all := true
+	for _, name := range []string{"ExpectPacket", "ExpectMessage"} {
+		fd := p.funcDecl("Protocol", name)
+		if fd == nil {
+			return fmt.Errorf("func (*Protocol) %s", name)
+		}
+		names = append(names, name)
+		callsRead := func(n ast.Node) bool {
+			return n != nil && firstPos(n, func(k ast.Node) bool { return isCallTo(k, ".ReadMessage") }) != token.NoPos
+		}
+		found, ok := false, true
+		ast.Inspect(fd.Body, func(n ast.Node) bool {
+			blk, isBlk := n.(*ast.BlockStmt)
+			if !isBlk {
+				return true
+			}
+			for i, st := range blk.List {
+				ifs, isIf := st.(*ast.IfStmt)
+				if !isIf {
+					continue
+				}
+				be, isBin := ifs.Cond.(*ast.BinaryExpr)
+				if !isBin || be.Op != token.NEQ || selPath(be.X) != "err" || selPath(be.Y) != "nil" {
+					continue
+				}
+				if !(ifs.Init != nil && callsRead(ifs.Init)) && !(i > 0 && callsRead(blk.List[i-1])) {
+					continue
+				}
+				found = true
+				if len(ifs.Body.List) == 0 {
+					ok = false
+					continue
+				}
+				if _, isRet := ifs.Body.List[0].(*ast.ReturnStmt); !isRet {
+					ok = false
+				}
+			}
+			return true
+		})
+		if !found {
+			unread = append(unread, name)
+			continue
+		}
+		all = all && ok
+	}
+	if len(unread) > 0 {
+		fmt.Fprintf(w, "/-- C08 fact. NOT READ FROM THE SOURCE for [%s] (no `if … ReadMessage() …; err != nil` there); the value is the\nmodel's, the correspondence run (transports that fail once and carry on, every offset) decides it. -/\ndef expectReturnsFirstError : Bool := %s\n", strings.Join(unread, ", "), boolLean(all))
+		return nil
+	}
+	fmt.Fprintf(w, "/-- C08 fact. Evidence: in each of [%s] the `if` that tests the error of `ReadMessage()` has a `return` as its first\nstatement: a failed read is handed back at once (wrapped), whatever the error says about itself. -/\ndef expectReturnsFirstError : Bool := %s\n", strings.Join(names, ", "), boolLean(all))
 	return nil
 }
